@@ -1,7 +1,10 @@
-// Package c01: property C01 over the shared exchange-machine harness (internal/pxy).
+// Package c01: property C01 over the shared exchange-machine harness (internal/pxy), plus the
+// HTTP/1 codec ops (internal/golib h1.*) and the wire-level end-to-end relay op (h1e2e.go).
 package c01
 
 import (
+	"strings"
+
 	"verif/harness/internal/core"
 	"verif/harness/internal/golib"
 	"verif/harness/internal/pxy"
@@ -11,12 +14,53 @@ type P struct{}
 
 func init() { core.Register(P{}) }
 
-func (P) ID() string                                  { return "C01" }
-func (P) NewExec() core.Exec                          { return pxy.New() }
-func (P) Nontrivial(ops []string, impl []string) bool { return pxy.Nontrivial(ops, impl) }
+// exec routes the codec ops to golib (with their oracle verdicts) and the wire-level relay op to
+// the e2e executor; everything else is the exchange-machine harness.
+type exec struct {
+	px *pxy.Ex
+	w  *wireEx
+}
+
+func (e *exec) Do(op string) core.Result {
+	if strings.HasPrefix(op, "h1.relay") {
+		if e.w == nil {
+			e.w = &wireEx{}
+		}
+		return e.w.Do(op)
+	}
+	if r, ok := golib.DoH1(op); ok {
+		return r
+	}
+	return e.px.Do(op)
+}
+
+func (e *exec) Close() {
+	e.px.Close()
+	if e.w != nil {
+		e.w.Close()
+	}
+}
+
+func (P) ID() string         { return "C01" }
+func (P) NewExec() core.Exec { return &exec{px: pxy.New()} }
+func (P) Nontrivial(ops []string, impl []string) bool {
+	if len(ops) > 0 && strings.HasPrefix(ops[0], "h1.") {
+		return h1Nontrivial(impl)
+	}
+	return pxy.Nontrivial(ops, impl)
+}
 
 func (P) Rule() string {
-	return "case = one client connection to a real martian.Proxy with no-op modifiers: 1..6 requests (methods, origin/absolute targets, 0..12 headers with repeats/odd case/empty values, bodies 0 B..64 KiB (MiB in thorough) by Content-Length or chunked) sent one at a time, pipelined in one write, or dribbled 7 bytes at a time; scripted raw origin (Content-Length, chunked, close-delimited, bodiless statuses, HEAD, gzip content-coding, Connection: close); distinct by op-list hash; non-trivial when >= 2 requests were served or the connection closed early"
+	return "case = one client connection to a real martian.Proxy with no-op modifiers: 1..6 requests (methods, origin/absolute targets, 0..12 headers with repeats/odd case/empty values, bodies 0 B..64 KiB (MiB in thorough) by Content-Length or chunked) sent one at a time, pipelined in one write, or dribbled 7 bytes at a time; scripted raw origin (Content-Length, chunked, close-delimited, bodiless statuses, HEAD, gzip content-coding, Connection: close); distinct by op-list hash; non-trivial when >= 2 requests were served or the connection closed early. Codec cases (h1.*): byte strings through the real http.ReadRequest/ReadResponse/Write and through the Lean reader (well-formed messages in every framing, every strict-prefix class, deviations from the grammar, pipelined streams), and raw exchanges through the real proxy whose origin-side and client-side bytes are re-read by the model; non-trivial when at least one message was read completely"
+}
+
+func h1Nontrivial(impl []string) bool {
+	for _, l := range impl {
+		if strings.HasPrefix(l, "ok ") || (strings.HasPrefix(l, "n=") && !strings.HasPrefix(l, "n=0 ")) {
+			return true
+		}
+	}
+	return false
 }
 
 func (P) Gen(r *core.Rand, tier string, emit func([]string)) {
@@ -32,4 +76,17 @@ func (P) Gen(r *core.Rand, tier string, emit func([]string)) {
 	for i := 0; i < n/10; i++ {
 		emit(golib.GenChunked(r, 20))
 	}
+	// the HTTP/1 codec model against net/http: readers, streams, writers
+	maxBody := 6000
+	for i := 0; i < n/4; i++ {
+		if i%10 == 9 {
+			maxBody = 70000
+		} else {
+			maxBody = 6000
+		}
+		emit(golib.GenH1Read(r, maxBody))
+		emit(golib.GenH1Streams(r, 3000))
+		emit(golib.GenH1Write(r, 3000))
+	}
+	genWire(r, tier, emit)
 }
